@@ -1,3 +1,6 @@
+#[cfg(bpaf_verif)]
+#[allow(unused_imports)]
+use crate::verif::std;
 pub(super) struct Splitter<'a> {
     input: &'a str,
 
